@@ -1,3 +1,65 @@
-import Lomond.Model.Core
+/-
+  C13 — abandoning the event loop at any event releases the socket (and the selector).
+  Property theorems only (helper lemmas: Proofs/Step.lean, Proofs/Release.lean).
+
+  In the model, abandoning the generator (by `close()`, by dropping it, by an exception raised
+  in the handler, or by an exception leaving a `with` block) is the application action
+  `Act.abandon`, available in the reaction to *every* event; it raises `GeneratorExit` at that
+  `yield`, and exactly the handlers Python would run are run.  "For every scenario, every event
+  index and every mechanism" is therefore "for every `cfg`, `react`, `env`".
+-/
+import Lomond.Proofs.Release
+
 namespace Lomond.C13
+open Lomond Lomond.Core
+
+/-- **Abandonment releases the socket and the selector.**  For the repaired `run()`
+    (`cleanup = true`), for every configuration (timers, connect outcome, write failures),
+    every environment script (server bytes with any segmentation, EOF, errors, silence) and
+    every application — in particular one that stops iterating at any event of its choice, by
+    any of the four mechanisms — the connection ends with the TCP socket closed and the
+    selector closed. -/
+theorem abandon_releases (cfg : Cfg) (react : React) (env : List EnvStep)
+    (hc : cfg.v.cleanup = true) :
+    (runAll cfg react env).sockOpen = false ∧ (runAll cfg react env).selOpen = false := by
+  have h := run_released { cfg := cfg, react := react, env := env } ⟨rfl, rfl⟩ hc
+  unfold runAll
+  simp only []
+  generalize run { cfg := cfg, react := react, env := env } = r at h
+  have cs : ∀ s : Sys, Released s →
+      (match closeSocket s with | .ok _ s' => s' | .err _ s' => s').sockOpen = false ∧
+      (match closeSocket s with | .ok _ s' => s' | .err _ s' => s').selOpen = false := by
+    intro s hs
+    obtain ⟨s', e⟩ := closeSocket_ok s
+    have c := closeSocket_state s
+    rw [e] at c ⊢
+    exact ⟨c.1, c.2.1.trans hs.2⟩
+  cases r with
+  | ok a s => exact h
+  | err x s =>
+    simp only [Res.state_err] at h
+    cases x with
+    | genExit => simp only []; split; exact cs s h; exact h
+    | outer y =>
+      cases y with
+      | genExit => simp only []; split; exact cs s h; exact h
+      | _ => exact h
+    | _ => exact h
+
+/-- The pinned commit (`cleanup = false`) did **not** have the property: the consumer closes the
+    generator at the `Connected` event and the socket stays open (finding D4). -/
+theorem present_variant_leaks :
+    ∃ (react : React) (env : List EnvStep),
+      (runAll { v := { cleanup := false } } react env).sockOpen = true := by
+  refine ⟨fun hist => if hist.length = 2 then [.abandon false] else [], [], ?_⟩
+  decide
+
+/-- non-vacuity: in the repaired variant the same application really is abandoning at
+    `Connected`, with the socket open at that moment, and the trace shows the close -/
+example :
+    (runAll { v := { cleanup := true } }
+      (fun hist => if hist.length = 2 then [.abandon false] else []) []).trace
+      = [.sockClose, .ev (.connected false), .wr [], .ev .connecting] := by
+  decide
+
 end Lomond.C13
